@@ -206,7 +206,7 @@ def stmts_of(body, varmap):
                 if cl is None:
                     return None
                 out.append(("each", cl))
-        elif isinstance(st, ast.If) and is_fanin_call(st.test) and not st.orelse:
+        elif isinstance(st, ast.If) and is_fanin_call(st.test):
             # if c.fanin(n): f = c.fanin(n).pop(); append...; append...
             vm = dict(varmap)
             for s2 in st.body:
@@ -219,6 +219,13 @@ def stmts_of(body, varmap):
                     out.append(("guard", cl))
                 else:
                     return None
+            for s2 in st.orelse:   # else: the undriven case
+                if not is_append(s2):
+                    return None
+                cl = clause_of(s2.value.args[0], varmap)
+                if cl is None:
+                    return None
+                out.append(("orElse", cl))
         else:
             return None
     return out
